@@ -281,6 +281,7 @@ def finish(ctx, level, technique_note, assumptions, extra_cov=None):
                 'theorems': [o[0] for o in ctx.obligations if o[1]],
                 'undischarged': [o[0] for o in ctx.obligations if not o[1]],
                 'known_findings_reproduced': sorted(hits.keys()),
+                'broken_obligations_or_correspondences': [b[:300] for b in ctx.broken],
                 'notes': ctx.notes})
     if extra_cov: cov.update(extra_cov)
     if cov['distinct_nontrivial'] < 2 and not ctx.broken and code == 0:
